@@ -286,7 +286,13 @@ impl Prop for ModelProg {
                 cmds.push(gen::Cmd::Cont);
             }
             if rng.coin() {
-                cmds.push(gen::Cmd::Goto(*rng.pick(&labels)));
+                // often the line the run most likely ended in (with TRON on it was the last one announced)
+                let end_line = p.lines.iter().find(|l| l.sts.iter().any(|s| matches!(s, gen::St::End | gen::St::Stop))).map(|l| l.label);
+                let target = match end_line {
+                    Some(l) if rng.coin() => l,
+                    _ => *rng.pick(&labels),
+                };
+                cmds.push(gen::Cmd::Goto(target));
                 if rng.coin() {
                     cmds.push(gen::Cmd::Cont);
                 }
